@@ -400,6 +400,7 @@ def run(ctx: Check, tree: Tree) -> None:
         "every (caller, callee, parameter) triple over {phsp_factor, angular_momentum, meson_radius} in ampform.dynamics forwards the caller's value (R-FORWARD)",
         "F = (1-iK)^-1 P; F^ = (1 - i K^ rho)^-1 P with K^ = conj(sqrt rho)^-1 K sqrt(rho)^-1, F = sqrt(rho) F^ (R-TERM-NC)",
         "K[i,j] and P[i] are substituted by the library's own parametrisations with matching indices and shared pole symbols (R-WIRING)",
+        "the rho_i placeholders of producer and consumers agree and carry no assumptions (R-SYMPAIR, R-PLACEHOLDER); the hashable content of an expression determines a class/function-valued phsp_factor, so SymPy's expression cache cannot hand out a node with another caller's factor (R-INJECTIVE)",
         "no expression that may contain a class with a non-sympified phsp_factor/angular_momentum/meson_radius is passed to a SymPy operation that rebuilds nodes from .args (R-REBUILD)",
     ]
     ctx.decided += ["one channel / one pole: K/(1-iK), P/(1-iK) reduce to the library's relativistic_breit_wigner[_with_ff] as rational-function identities at gamma = 1; residue structure of the K summands for general i, j (R-TERM)"]
@@ -417,3 +418,11 @@ def run(ctx: Check, tree: Tree) -> None:
     ctx.section(check_cached_matrices_not_mutated, ctx, tree)
     ctx.section(check_no_rebuild, ctx, tree)
     ctx.section(check_bw_reduction, ctx, tree)
+    from .c09 import check_rho_pairing
+    from .c14 import check_content_injective
+
+    ctx.section(check_rho_pairing, ctx, tree)  # "with the same rho": producer/consumer symbols agree, placeholders carry no assumptions
+    hook = tree.funcs.get("ampform.sympy._decorator::_hashable_content_method")
+    if hook is None:
+        raise AnalysisError("vanished anchor: _hashable_content_method")
+    ctx.section(check_content_injective, ctx, tree, hook)
